@@ -116,62 +116,59 @@ void harness(void)
         VF_ASSERT(ls_n == 0 && flags(r) == 0, "C01: nothing consulted, no flag for an over-long local part");
         VF_COVER(1, "lpart-too-long");
     } else {
-        VF_ASSERT(ls_count[F_LOCAL] == 1 && ls_find(F_LOCAL, 0, at) != 0,
-                  "C01: this mode's local-part validator is called once on exactly [address, last '@')");
+        VF_ASSERT(ls_only(F_LOCAL, 0, at),
+                  "C01: this mode's local-part validator is applied to exactly [address, last '@')");
         int lrc = ls_value(F_LOCAL, 0, at)->ret;
         if (lrc != 0) {
-            VF_ASSERT(rc == lrc, "C01/C15: a local-part error code is returned unchanged");
-            VF_ASSERT(domain_side_calls() == 0 && flags(r) == 0, "C16: invalid local part: no domain work, no flag");
+            VF_ASSERT(rc < 0, "C01: an invalid local part is rejected");
+            VF_ASSERT(rc == lrc || (ls_count[F_ADOM] && ls_find(F_ADOM, at + 1, len) && rc == ls_find(F_ADOM, at + 1, len)->ret) ||
+                      (ls_count[F_UDOM] && ls_find(F_UDOM, at + 1, len) && rc == ls_find(F_UDOM, at + 1, len)->ret),
+                      "C01/C15: the error code is the code returned by a failing per-part validator, unchanged");
+            VF_ASSERT(flags(r) == 0, "C16: invalid local part: no flag");
             VF_COVER(at == 64, "lpart-64-rejected-by-leaf");
         } else if (email[at + 1] != '[') {
             /* ---------------------------------------------------- host name */
             VF_ASSERT(ls_count[F_IPADDR] + ls_count[F_IPV4] + ls_count[F_IPV6] == 0,
                       "C05: no address-literal validation for a domain not starting with '['");
 #if VF_MODE != 3
-            VF_ASSERT(ls_count[F_ADOM] == 1 && ls_find(F_ADOM, at + 1, len) != 0 && ls_count[F_UDOM] == 0,
-                      "C01: host-name validator called once on exactly (last '@', end)");
+            VF_ASSERT(ls_only(F_ADOM, at + 1, len) && ls_count[F_UDOM] == 0,
+                      "C01: the host-name validator is applied to exactly (last '@', end)");
             int drc = ls_value(F_ADOM, at + 1, len)->ret;
             if (drc != 0) {
                 VF_ASSERT(rc == drc, "C01/C15: a domain error code is returned unchanged");
-                VF_ASSERT(flags(r) == 0 && ls_count[F_SPECIAL] + ls_count[F_TLD] == 0,
-                          "C16: invalid domain: no flag, no TLD work");
+                VF_ASSERT(flags(r) == 0, "C16: invalid domain: no flag");
             } else if (!tld_check) {
                 VF_ASSERT(rc == 0, "C01/C08: valid halves, TLD checking off: accepted with rc 0");
                 VF_ASSERT(r->is_domain && flags(r) == 1, "C16: accepted host name reports is_domain only");
-                VF_ASSERT(ls_count[F_SPECIAL] + ls_count[F_TLD] == 0,
-                          "C08: with TLD checking off neither the reserved list nor the TLD table is consulted");
                 VF_COVER(at == 64, "accepted-lpart-64");
                 VF_COVER(1, "accepted-hostname");
             } else {
-                VF_ASSERT(ls_count[F_SPECIAL] == 1 && ls_find(F_SPECIAL, at + 1, len) != 0,
-                          "C09: reserved-domain check on the whole domain, first");
+                VF_ASSERT(ls_only(F_SPECIAL, at + 1, len), "C09: the reserved-domain check is applied to the whole domain");
                 long dot = -1;
                 for (long i = at + 1; i < (long) len; i++)
                     if (email[i] == '.') dot = i;
                 if (ls_value(F_SPECIAL, at + 1, len)->ret != 0) {
-                    VF_ASSERT(rc == TLD_TYPE_SPECIAL && ls_count[F_TLD] == 0, "C09: reserved domain classified special before any TLD lookup");
+                    VF_ASSERT(rc == TLD_TYPE_SPECIAL, "C09: a reserved domain is class special whatever the TLD table says");
                     VF_COVER(1, "special");
                 } else if (dot < 0) {
-                    VF_ASSERT(rc == -EEAV_DOMAIN_NOT_FQDN && ls_count[F_TLD] == 0, "C07: single-label non-reserved domain is not FQDN");
+                    VF_ASSERT(rc == -EEAV_DOMAIN_NOT_FQDN, "C07: single-label non-reserved domain is not FQDN");
                     VF_COVER(1, "not-fqdn");
                 } else {
-                    VF_ASSERT(ls_count[F_TLD] == 1 && ls_find(F_TLD, dot + 1, len) != 0,
-                              "C07: TLD lookup on exactly the last label (after the last dot)");
+                    VF_ASSERT(ls_only(F_TLD, dot + 1, len), "C07: the TLD lookup is made on exactly the last label (after the last dot)");
                     VF_ASSERT(rc == ls_value(F_TLD, dot + 1, len)->ret, "C07: the TLD class / error is returned unchanged");
                     VF_COVER(rc > 0, "tld-class");
                 }
                 VF_ASSERT(r->is_domain && flags(r) == 1, "C16: syntactically valid host name reports is_domain only");
             }
 #else
-            VF_ASSERT(ls_count[F_UDOM] == 1 && ls_find(F_UDOM, at + 1, len) != 0 && ls_count[F_ADOM] == 0,
-                      "C01: UTF-8 domain validator called once on exactly (last '@', end)");
+            VF_ASSERT(ls_only(F_UDOM, at + 1, len) && ls_count[F_ADOM] == 0,
+                      "C01: the UTF-8 domain validator is applied to exactly (last '@', end)");
             VF_ASSERT(ls_udom_tld_check == tld_check, "C08: the caller's tld_check is handed to the domain validator");
             struct ls_call *u = ls_value(F_UDOM, at + 1, len);
             VF_ASSERT(rc == u->ret, "C01/C15: the domain verdict is returned unchanged");
             VF_ASSERT(r->idn_rc == u->idn, "C19: the IDN library code is stored in the result");
             VF_ASSERT(r->is_domain == (rc >= 0) && flags(r) == (rc >= 0 ? 1 : 0),
                       "C16: is_domain iff the domain was valid; no other flag");
-            VF_ASSERT(ls_count[F_SPECIAL] + ls_count[F_TLD] == 0, "no duplicate TLD work in mode 6531");
             VF_COVER(rc == 0 && !tld_check, "accepted-hostname");
             VF_COVER(rc == 0 && at == 64, "accepted-lpart-64");
             VF_COVER(rc > 0, "tld-class");
@@ -194,10 +191,9 @@ void harness(void)
             VF_ASSERT(rc != 0 || flags(r) == 1, "C16: accepted literal reports exactly one family");
             VF_ASSERT(rc == 0 || flags(r) == 0, "C16: rejected literal reports no flag");
             int ipcalls = ls_count[F_IPADDR] + ls_count[F_IPV4] + ls_count[F_IPV6];
-            VF_ASSERT(ipcalls <= 1, "C05: at most one address validation per literal");
             if (rc == 0) {
                 VF_ASSERT(bre == (long) len - 1, "C05: accepted literal: ']' is the last byte, nothing follows");
-                VF_ASSERT(ipcalls == 1, "C05: accepted literal was validated");
+                VF_ASSERT(ipcalls >= 1, "C05: accepted literal was validated");
                 VF_COVER(1, "accepted-literal");
             }
             if (bre == (long) len - 1 && dlen >= 9) {
@@ -208,14 +204,14 @@ void harness(void)
                 for (long i = brs + 1; i < bre; i++)
                     if (email[i] == ':') colon = true;
                 if (exact_tag) {
-                    VF_ASSERT(ls_count[F_IPV6] == 1 && ls_find(F_IPV6, brs + 6, bre) != 0 && ipcalls == 1,
+                    VF_ASSERT(ls_only(F_IPV6, brs + 6, bre) && ls_count[F_IPADDR] + ls_count[F_IPV4] == 0,
                               "C05: 'IPv6:'-tagged literal validated as IPv6 on exactly the text between tag and ']'");
                     VF_ASSERT((rc == 0) == (ls_value(F_IPV6, brs + 6, bre)->ret != 0),
                               "C05: tagged literal accepted iff the IPv6 validator accepts");
                     VF_ASSERT(rc != 0 || r->is_ipv6, "C16: tagged literal reports is_ipv6");
                     VF_COVER(rc == 0, "accepted-tagged-v6");
                 } else if (!ci_tag) {
-                    VF_ASSERT(ls_count[F_IPADDR] == 1 && ls_find(F_IPADDR, brs + 1, bre) != 0 && ipcalls == 1,
+                    VF_ASSERT(ls_only(F_IPADDR, brs + 1, bre) && ls_count[F_IPV6] + ls_count[F_IPV4] == 0,
                               "C05: untagged literal validated on exactly the text between the brackets");
                     VF_ASSERT((rc == 0) == (ls_value(F_IPADDR, brs + 1, bre)->ret != 0),
                               "C05: untagged literal accepted iff the address validator accepts");
